@@ -21,7 +21,7 @@ BUILTINS = {
     "len", "range", "sorted", "set", "list", "tuple", "sum", "min", "max", "abs", "int", "float", "round",
     "isinstance", "enumerate", "zip", "reversed", "any", "all", "dict", "str", "print", "oset", "bool",
     "ceil", "floor", "next", "iter", "frozenset", "type", "id", "repr", "getattr", "hasattr", "fzs",
-    "deepcopy", "super", "setattr",
+    "deepcopy", "super", "setattr", "defaultdict",
 }
 
 
@@ -621,6 +621,19 @@ def call_builtin(ex, name, args, kw, node):
         t = el if is_bool(el) else (el != 0)
         rng = z3.And(i >= 0, i < q.n)
         return z3.Exists([i], z3.And(rng, t)) if name == "any" else V.qforall([i], z3.Implies(rng, t))
+    if name == "defaultdict":
+        from .engine import DefaultDictEmpty
+
+        (f,) = args
+        fname = getattr(f, "name", "")
+        if fname in ("builtin:float", "builtin:int"):
+            return DefaultDictEmpty(z3.RealVal(0) if fname.endswith("float") else z3.IntVal(0))
+        raise Unsupported("defaultdict with a factory other than float / int")
+    if name in ("np.maximum", "np.minimum") and len(args) == 2:
+        xs = [to_num(a) for a in args]
+        if any(not t.is_int() for t in xs):
+            xs = [to_real(t) for t in xs]
+        return z3.If(xs[0] >= xs[1], xs[0], xs[1]) if name == "np.maximum" else z3.If(xs[0] <= xs[1], xs[0], xs[1])
     if name == "dict":
         if not args and not kw:
             return EmptyDict()
